@@ -483,3 +483,56 @@ Proof.
     unfold complete in Hin. destruct (alive s h'); [|destruct Hin].
     destruct Hin as [E|[]]. injection E as <- <-. exists lo, hi. split; [exact Hk|exact Hlen].
 Qed.
+
+(* ---------- with pairwise disjoint pending ranges (an invariant of the client: Proofs/ClientMgrInv.v, ic_rng_disj) a
+   reply that is accepted belongs entirely to the batch that owns any one of its ids ---------- *)
+Definition ranges_disjoint (B : list ((N * N) * handle)) : Prop :=
+  forall r1 r2, In r1 (map fst B) -> In r2 (map fst B) -> r1 = r2 \/ snd r1 <= fst r2 \/ snd r2 <= fst r1.
+
+Lemma alookup_range_in lo hi h : forall B : list ((N * N) * handle),
+  alookup range_eqb (lo, hi) B = Some h -> In (lo, hi) (map fst B).
+Proof.
+  induction B as [|[[a b] v] B IH]; [discriminate|]. simpl.
+  destruct (range_eqb (lo, hi) (a, b)) eqn:E.
+  - intros _. left. unfold range_eqb in E. simpl in E. apply andb_true_iff in E as [E1 E2].
+    apply N.eqb_eq in E1. apply N.eqb_eq in E2. now subst.
+  - intro H. right. now apply IH.
+Qed.
+
+Theorem reply_goes_to_owner : forall s ms s1 o r k loA hiA,
+  handle_back s (FArray ms) = ROk s1 o -> ranges_disjoint (batches (m s)) ->
+  In r (resps ms) -> id_as_number (rs_id r) = Some k ->
+  In (loA, hiA) (map fst (batches (m s))) -> loA <= k < hiA ->
+  exists h,
+    alookup range_eqb (loA, hiA) (batches (m s)) = Some h /\
+    (forall r', In r' (resps ms) -> exists k', id_as_number (rs_id r') = Some k' /\ loA <= k' < hiA) /\
+    batches (m s1) = aremove range_eqb (loA, hiA) (batches (m s)) /\
+    let filled := filled_of loA (N.to_nat (hiA - loA)) (resps ms) in
+    o = complete s h (CBatch filled) /\
+    length filled = N.to_nat (hiA - loA) /\
+    forall j, (j < N.to_nat (hiA - loA))%nat -> nth j filled placeholder = entry_of loA (resps ms) j.
+Proof.
+  intros s ms s1 o r k loA hiA H Hd Hin Ek HA Hk.
+  apply array_reply_ok in H; [|intro E; rewrite E in Hin; destruct Hin].
+  destruct H as [lo [hi [h [Hl [Hlt [Hall [_ [_ [Hb Hrest]]]]]]]]].
+  assert (E : (lo, hi) = (loA, hiA)).
+  { destruct (Hd (lo, hi) (loA, hiA) (alookup_range_in _ _ _ _ Hl) HA) as [E|E]; [exact E|exfalso].
+    destruct (Hall r Hin) as [k' [Ek' Hk']]. rewrite Ek in Ek'. injection Ek' as <-. simpl in E. lia. }
+  injection E as -> ->. exists h. split; [exact Hl|]. split; [exact Hall|]. split; [exact Hb|exact Hrest].
+Qed.
+
+Theorem mixed_reply_fails : forall s ms r1 r2 k1 k2 lo1 hi1 lo2 hi2,
+  ranges_disjoint (batches (m s)) ->
+  In r1 (resps ms) -> id_as_number (rs_id r1) = Some k1 -> In (lo1, hi1) (map fst (batches (m s))) -> lo1 <= k1 < hi1 ->
+  In r2 (resps ms) -> id_as_number (rs_id r2) = Some k2 -> In (lo2, hi2) (map fst (batches (m s))) -> lo2 <= k2 < hi2 ->
+  (lo1, hi1) <> (lo2, hi2) ->
+  exists s1 f, handle_back s (FArray ms) = RFatal s1 [] f.
+Proof.
+  intros s ms r1 r2 k1 k2 lo1 hi1 lo2 hi2 Hd Hi1 E1 HA1 Hk1 Hi2 E2 HA2 Hk2 Hne.
+  destruct (handle_back s (FArray ms)) as [s1 o|s1 o f] eqn:E.
+  - exfalso.
+    destruct (reply_goes_to_owner _ _ _ _ _ _ _ _ E Hd Hi1 E1 HA1 Hk1) as [_ [_ [Hall _]]].
+    destruct (Hall r2 Hi2) as [k' [Ek' Hk']]. rewrite E2 in Ek'. injection Ek' as <-.
+    destruct (Hd _ _ HA1 HA2) as [Heq|Hdis]; [contradiction|]. simpl in Hdis. lia.
+  - apply array_reply_fatal in E as E'. destruct E' as [-> _]. eauto.
+Qed.
